@@ -187,4 +187,17 @@ def digest_checked_before_delete(ev):
     (get_hex_digest returned on every path to the removal) and found the digest different from the one just computed"""
     if ("call", f"{CLS}.get_hex_digest") not in ev.done:
         return False
-    return True
+    from . import facts as F_
+    from .terms import subterms
+    # ... and the removal is on the branch where the freshly computed digest of that file DIFFERS from the digest of the content
+    for f_, pol in ev.facts:
+        for a_ in F_.atoms_of(f_):
+            if a_[0] == "cmp" and a_[1] in ("==", "!="):
+                sides = [a_[2], a_[3]]
+                for i in (0, 1):
+                    if sides[i] and all(tag(t) == "hashof" for t in sides[i]) and sides[1 - i] \
+                            and all(tag(t) == "item" and tag(t[1]) == "dictzip" for t in sides[1 - i]):
+                        v = F_.implied(ev.facts, a_)
+                        if v is not None and v == (a_[1] == "!="):
+                            return True
+    return False
